@@ -2,6 +2,7 @@ import Pyunicorn.Model.Proto
 import Pyunicorn.Model.Equivariance
 import Pyunicorn.Model.Relabel
 import Pyunicorn.Model.Repr
+import Pyunicorn.Model.NetRW
 /-! Line-protocol driver for C04. -/
 open Pyunicorn Pyunicorn.Proto Pyunicorn.Nsi
 
@@ -91,6 +92,20 @@ def netRelabelled (perm dirS adjS wS : String) : String :=
     mvec n fun i => showOptRat (Net.localVulnerability n a i),
     showRats (Net.cliquishness 4 n a (Net.outdeg n a)),
     showRats (Net.cliquishness 5 n a (Net.outdeg n a))] "|"
+
+/-- round 5 — link-weighted clustering of `Pyunicorn.Net` (C03) on `permuted_copy(perm)`: the four
+`key=` motif clustering coefficients (`M` = cubic roots of the link attribute) and
+`weighted_local_clustering` of the weight matrix `W` -/
+def netWeightedRelabelled (perm adjS mS wS : String) : String :=
+  let idx := permFn (nats perm)
+  let A := boolMat adjS; let n := A.length
+  let a := mat (adjFn A) idx
+  let m := mat (ratMatFn (ratMat mS)) idx
+  let w := mat (ratMatFn (ratMat wS)) idx
+  join [
+    mvec n fun i => showRat (Net.cycleCW n a m i), mvec n fun i => showRat (Net.midCW n a m i),
+    mvec n fun i => showRat (Net.inCW n a m i), mvec n fun i => showRat (Net.outCW n a m i),
+    mvec n fun i => showOptRat (Net.weightedLocalClustering n w i)] "|"
 
 /-- `Pyunicorn.Cross` (C11) on the renumbered network with the renumbered node lists -/
 def crossRelabelled (perm dirS adjS wS l1 l2 dS : String) : String :=
@@ -266,6 +281,7 @@ end relabelled
 def answer (toks : List String) : String :=
   match toks with
   | ["net", perm, dir, adj, w] => netRelabelled perm dir adj w
+  | ["netw", perm, adj, m, w] => netWeightedRelabelled perm adj m w
   | ["cross", perm, dir, adj, w, l1, l2, d] => crossRelabelled perm dir adj w l1 l2 d
   | ["res", perm, adj, res] => resRelabelled perm adj res
   | ["geo", perm, dir, dim, x, adj, d] => geoRelabelled perm dir dim x adj d
